@@ -530,8 +530,8 @@ def gen_scripts(rng, d, n=3):
     if not any(k in ('infallible', 'fallible') for k in kinds):
         return [[]]
     nsets = max(1, len(ruleset_names(d)))
-    out = [[], [2]]
+    out = [[], [2], [66, 2, 69]]
     for _ in range(n):
         ln = rng.randint(1, 6)
-        out.append([rng.randrange(8) + 8 * rng.randrange(nsets) for _ in range(ln)])
+        out.append([rng.randrange(8) + 8 * rng.randrange(nsets) + (64 if rng.random() < 0.25 else 0) for _ in range(ln)])
     return out
